@@ -120,6 +120,7 @@ def finish(rep, prop, tier, seed, level, meta, t0, verbose=False):
         "solver_s": round(rep.solver_s, 3),
         "functions_under_contract": rep.functions,
         "paths_cross_checked_against_cpython": rep.crosschecked,
+        "paths_not_cross_checked": getattr(rep, "crosscheck_skipped", 0),
         "bounded_standins": rep.bounded,
         "samples": samples,
         "refuted": [o.id for o, _, _ in violations],
@@ -147,7 +148,7 @@ def finish(rep, prop, tier, seed, level, meta, t0, verbose=False):
         json.dump(ev, f, indent=1, default=str)
     print(f"[{prop}] tier={tier} obligations={len(deductive)} discharged={len(discharged)} "
           f"refuted={len(violations)} undecided={len(undecided)} errors={len(rep.errors)} "
-          f"crosschecked={rep.crosschecked} mismatches={len(rep.crosscheck_mismatch)} "
+          f"crosschecked={rep.crosschecked} (skipped {getattr(rep, 'crosscheck_skipped', 0)}) mismatches={len(rep.crosscheck_mismatch)} "
           f"bounded={len(rep.bounded)} wall={ev['wall_s']}s")
     if verbose or undecided or rep.errors or unsound or rep.crosscheck_mismatch:
         for o in undecided[:30]:
